@@ -223,3 +223,50 @@ Proof.
   rewrite Rmult_comm. apply Rabs_mul_01; [exact Ha|].
   cbn [sub Rnd_ops]. apply rnd64_abs_le; [exact S2|exact B1023_fix].
 Qed.
+
+(* the high-pass run, for every NumOps instance, as a Fixpoint *)
+Fixpoint g_hpf_outs {T} (O : NumOps T) (alpha : T) (st : T * T) (xs : list T) : list T :=
+  match xs with
+  | [] => []
+  | x :: r => let st' := hpf_iter O alpha st x in fst st' :: g_hpf_outs O alpha st' r
+  end.
+
+Lemma g_hpf_run_outs {T} (O : NumOps T) alpha : forall xs st acc,
+  snd (fold_left (fun a x => let st' := hpf_iter O alpha (fst a) x in (st', snd a ++ [fst st'])) xs (st, acc)) =
+  acc ++ g_hpf_outs O alpha st xs.
+Proof.
+  induction xs as [|x r IH]; intros st acc; cbn [fold_left g_hpf_outs]; [rewrite app_nil_r; reflexivity|].
+  cbv zeta. cbn [fst snd]. rewrite IH, <- app_assoc. reflexivity.
+Qed.
+
+Lemma g_hpf_run_eq {T} (O : NumOps T) alpha st xs : hpf_run O alpha st xs = g_hpf_outs O alpha st xs.
+Proof. unfold hpf_run. rewrite g_hpf_run_outs. reflexivity. Qed.
+
+Definition fin_le21 (x : pfloat) : Prop := ffinite x = true /\ Rabs (f2r x) <= B1021.
+
+(* a run of any length: as long as the rounded-real outputs stay within 2^1021, the float run is the rounded-real run *)
+Theorem f64_hpf_run_refines (alpha : pfloat) : ffinite alpha = true -> 0 <= f2r alpha <= 1 ->
+  forall (xs : list pfloat) (o xi : pfloat), fin_le21 o -> fin_le21 xi -> Forall fin_le21 xs ->
+  Forall (fun y => Rabs y <= B1021) (hpf_run (Rnd_ops rnd64) (f2r alpha) (f2r o, f2r xi) (map f2r xs)) ->
+  Forall2 frel (hpf_run F64_ops alpha (o, xi) xs) (hpf_run (Rnd_ops rnd64) (f2r alpha) (f2r o, f2r xi) (map f2r xs)).
+Proof.
+  intros Fa Ha xs.
+  induction xs as [|x r IH]; intros o xi [Fo Ho] [Fi Hi] Hxs Hys; rewrite !g_hpf_run_eq in *; cbn [map g_hpf_outs] in *; [constructor|].
+  apply Forall_cons_iff in Hxs. destruct Hxs as [[Fx Hx] Hr].
+  apply Forall_cons_iff in Hys. destruct Hys as [Hy Hys].
+  destruct (f64_hpf_iter_refines alpha o xi x Fa Fo Fi Fx Ha Ho Hi Hx) as [[F1 E1] E2].
+  constructor; [split; assumption|].
+  rewrite (surjective_pairing (hpf_iter F64_ops alpha (o, xi) x)), E2.
+  rewrite (surjective_pairing (hpf_iter (Rnd_ops rnd64) (f2r alpha) (f2r o, f2r xi) (f2r x))) in Hys |- *.
+  change (snd (hpf_iter (Rnd_ops rnd64) (f2r alpha) (f2r o, f2r xi) (f2r x))) with (f2r x) in Hys |- *.
+  rewrite <- E1 in Hy, Hys |- *.
+  rewrite <- !g_hpf_run_eq. apply IH; [split; assumption|split; assumption|exact Hr|].
+  rewrite g_hpf_run_eq. exact Hys.
+Qed.
+
+Theorem f64_hpf_run_values (alpha : pfloat) : ffinite alpha = true -> 0 <= f2r alpha <= 1 ->
+  forall (xs : list pfloat) (o xi : pfloat), fin_le21 o -> fin_le21 xi -> Forall fin_le21 xs ->
+  Forall (fun y => Rabs y <= B1021) (hpf_run (Rnd_ops rnd64) (f2r alpha) (f2r o, f2r xi) (map f2r xs)) ->
+  map f2r (hpf_run F64_ops alpha (o, xi) xs) = hpf_run (Rnd_ops rnd64) (f2r alpha) (f2r o, f2r xi) (map f2r xs) /\
+  Forall (fun y => ffinite y = true) (hpf_run F64_ops alpha (o, xi) xs).
+Proof. intros Fa Ha xs o xi Ho Hi Hxs Hys. apply Forall2_frel_map. apply f64_hpf_run_refines; assumption. Qed.
